@@ -626,7 +626,7 @@ def chain_diff(ctx, mol, cfg, S=None):
     ctx.distinct(("chain-diff", zlib.crc32(json.dumps(mol["coords"]).encode()), json.dumps(base, sort_keys=True), S))
 
 
-def element_filter(ctx, rng, mol, cfg, E=None):
+def element_filter(ctx, rng, mol, cfg, E=None, decoy=None):
     """Density.from_structure(file, filter_by_elements=E): the grid changes by exactly the removed atoms."""
     from tme import Density, Structure
     from pv import env
@@ -650,6 +650,14 @@ def element_filter(ctx, rng, mol, cfg, E=None):
         k = int(rng.integers(1, len(present)))
         E = {present[int(i)] for i in rng.choice(len(present), size=k, replace=False)}
     Ec = set(present) - E
+    # decoys: element names that are NOT in the file but close to one that is (longer: 'C' -> 'CA', 'S' -> 'SE'; other case);
+    # they select nothing, so the expected grids are unchanged
+    two = ["CA", "CL", "CU", "CO", "CD", "NA", "NE", "NI", "SE", "SI", "SR", "OS", "HE", "HG", "FE", "PT", "PB", "MG", "MN", "ZN", "BR", "KR"]
+    decoys = [x for x in two if x not in present and x[0] in present] + [x.lower() for x in present if x.lower() not in present]
+    fE, fEc = set(E), set(Ec)
+    if decoys and (decoy if decoy is not None else rng.random() < 0.6):
+        fE |= {decoys[int(rng.integers(len(decoys)))]}
+        fEc |= {decoys[int(rng.integers(len(decoys)))], decoys[int(rng.integers(len(decoys)))]}
     kw = {}
     if cfg["shape"] is not None:
         kw["shape"] = tuple(cfg["shape"])
@@ -658,9 +666,10 @@ def element_filter(ctx, rng, mol, cfg, E=None):
     if cfg["rate"] is not None:
         kw["sampling_rate"] = cfg["rate"]
     kw["weight_type"] = cfg["wt"]
-    inp = {"mol": pm, "cfg": dict(cfg, chain=None, api="from_structure(file)"), "elements_kept": sorted(E)}
+    inp = {"mol": pm, "cfg": dict(cfg, chain=None, api="from_structure(file)"), "elements_kept": sorted(E),
+           "filters_passed": [sorted(fE), sorted(fEc)], "decoy": bool(fE != E or fEc != Ec)}
     try:
-        dens = [Density.from_structure(path, filter_by_elements=f, **kw) for f in (None, E, Ec)]
+        dens = [Density.from_structure(path, filter_by_elements=f, **kw) for f in (None, fE, fEc)]
     except Exception as e:  # noqa
         ctx.spec("element restriction returns", inp, False, type(e).__name__ + ":" + str(e)[:100], key="to_volume:raised")
         return
@@ -869,7 +878,7 @@ def replay(ctx, rec):
     check_table(ctx)
     inp = rec.get("input") or {}
     if "elements_kept" in inp:
-        element_filter(ctx, ctx.rng("replay"), inp["mol"], inp["cfg"], E=set(inp["elements_kept"]))
+        element_filter(ctx, ctx.rng("replay"), inp["mol"], inp["cfg"], E=set(inp["elements_kept"]), decoy=inp.get("decoy"))
     elif "mol" in inp and "cfg" in inp:
         check_case(ctx, inp["mol"], inp["cfg"], history=inp.get("history"))
         if "chains_kept" in inp:
